@@ -11,13 +11,14 @@ def tempOf? : Node → Option Nat
   | .ident (.temp n) _ => some n
   | _ => none
 
+def declaratorTemp? : Node → Option Nat
+  | .other "VariableDeclarator" _ ["id", "init", "definite"] [.ident (.temp n) _, .atom "null", _] => some n
+  | _ => none
+
 /-- the temporaries declared by an injected `let` statement (all declarators are temporaries) -/
 def injectedLet? : Node → Option (List Nat)
   | .other "VariableDeclaration" _ ["kind", "declare", "declarations"] [.atom "\"let\"", _, .arr decls] =>
-    let ids := decls.map fun d =>
-      match d with
-      | .other "VariableDeclarator" _ ["id", "init", "definite"] [.ident (.temp n) _, .atom "null", _] => some n
-      | _ => none
+    let ids := decls.map declaratorTemp?
     if !ids.isEmpty && ids.all Option.isSome then some (ids.filterMap id) else none
   | _ => none
 
